@@ -710,7 +710,36 @@ pub fn op_strategy(cfg: &OpsCfg, n_keys: usize, default_params: Params) -> Boxed
 }
 
 pub fn ops_strategy(cfg: &OpsCfg, n_keys: usize, default_params: Params) -> BoxedStrategy<Vec<Op>> {
-    vec(op_strategy(cfg, n_keys, default_params), cfg.n_ops.clone()).boxed()
+    vec(op_strategy(cfg, n_keys, default_params), cfg.n_ops.clone())
+        .prop_map(|mut ops| {
+            tame_bursts(&mut ops);
+            ops
+        })
+        .boxed()
+}
+
+/// Cost bound for `Burst`: an overwrite in place keeps the slot and zero-fills its tail, so n
+/// identical small puts on a key that holds a multi-megabyte slot write n x slot bytes (65536 x 16
+/// MiB = 1 TiB: correct, but hours).  A burst whose worst case exceeds 1 GiB of zero-fill is cut
+/// down to 255..257 calls (still wraps an 8-bit counter), beyond 4 MiB slots to 2..4 calls.
+pub fn tame_bursts(ops: &mut [Op]) {
+    let maxv = ops
+        .iter()
+        .map(|op| match op {
+            Op::Put { v, .. } | Op::PutStr { v, .. } | Op::Burst { v, .. } => v.len(),
+            Op::BulkPut { kvs } | Op::BulkPutStr { kvs } | Op::PutFromIter { kvs } => kvs.iter().map(|kv| kv.1.len()).max().unwrap_or(0),
+            _ => 0,
+        })
+        .max()
+        .unwrap_or(0) as u64
+        + 4096;
+    for op in ops.iter_mut() {
+        if let Op::Burst { n, .. } = op {
+            if maxv * (*n as u64) > 1 << 30 {
+                *n = if maxv * 257 <= 1 << 30 { 255 + *n % 3 } else { 2 + *n % 3 };
+            }
+        }
+    }
 }
 
 /// single-map history generator
@@ -998,7 +1027,8 @@ pub fn history_strategy(cfg: HistCfg) -> BoxedStrategy<History> {
                     // before the final request)
                     let quiet = all.len().saturating_sub(2);
                     all.extend(ops);
-                    let ops = all;
+                    let mut ops = all;
+                    tame_bursts(&mut ops);
                     let (kb, vb) = size_bounds(&keys, &ops);
                     let (p, mut ex) = sanitize_params(params, kb, vb);
                     let ops: Vec<Op> = ops
